@@ -24,23 +24,32 @@ MANIFEST = {
             'finished at that instant keeps state, state_info, output; nothing is reported), '
             'succeed_keeps_finished (full since repo fix ce9b9520), *_state_output_together, cac_succeed_atomic, '
             'cac_succeed_keeps_finished (the race of the completion check with a concurrent stop(SUCCESS) found here is '
-            'closed by repo fix ce9b9520: full theorem) and cac_one_party_full_fails/_partial (an execution PAUSED during '
-            'its completion check is force-failed to ERROR: known finding, replayed on the real code). Tie B: race-wf stream = the '
+            'closed by repo fix ce9b9520: full theorem) and cac_one_party (full since repo patch 25 repeats the paused-or-'
+            'completed guard after expire_all; before it an execution PAUSED during its completion check was force-failed '
+            'to ERROR: _full_fails witness kept as regression example). Tie B: race-wf stream = the '
             'REAL completion / stop transactions with the REAL stop / pause / second completion check of another session '
             'committed at every pre-lock SQL statement (statement tap), final row + write statements + exception equal '
             'Mistral.Race.runWith on the generated script; monitor: a finished row is never altered, (state, output) come '
             'from one party. ACTION RESULT ACCEPTANCE (Props.C03RaceAction over the regenerated script of '
-            'on_action_complete -> RegularAction.complete; the translator also asserts that no lock / compare-and-swap is on '
-            'that path): action_complete_overwrites, action_accept_once_full_fails (two results handled concurrently are both '
-            'accepted, the later flush overwrites the accepted one: known finding, replayed on the real engine by the '
-            'race-action stream) and action_accept_once_partial (true at transaction granularity).',
+            'on_action_complete -> RegularAction.complete, which since repo patch 26 accepts the result through '
+            'update_action_execution_state = update_on_match on the state read): action_complete_atomic, action_accept_once '
+            '(a completed action execution is never touched, nothing is handed to the task; before the patch this was '
+            '_full_fails: two results handled concurrently were both accepted), action_state_output_together; tie: '
+            'race-action stream. TASK COMPLETION (Props.C03RaceTask over the regenerated script of Task.complete with '
+            'Task.set_state inlined; RegularTask.on_action_complete ends in it for action and child-workflow results): '
+            'task_complete_atomic, task_keeps_finished (a task completed at the instant of the compare-and-swap keeps '
+            'state, state_info, next_tasks, processed), dispatch_only_by_winner, dispatch_at_most_once (of any number of '
+            'racing completions of one task at most one runs the completion logic); tie: race-task stream (real '
+            'on_action_complete vs a real complete_task(ERROR) of another session; the same child-workflow result '
+            'delivered by two engines).',
     'note': 'Monitors observe committed snapshots after each event (one transaction may contain two compare-and-swaps: '
             'PAUSED->RUNNING->final on resume, modelled as a two-move path). Rerun is modelled in C12. Sub-transaction '
             'interleavings between processes ARE exhibited, at SQL-statement granularity, for the workflow row under '
             '_succeed_workflow / _fail_workflow / _cancel_workflow / Workflow.set_state (stop_workflow with any state, '
             'force-fail), the completion-check transaction, and the action row under RegularAction.complete, against '
-            'arbitrary concurrent transactions on that row. They are still NOT exhibited for: Task.set_state / '
-            'Task.complete / defer (the task row in the same transaction), WorkflowAction results, pause / resume scripts, transactions over several rows (stop recursion into sub-workflows, '
+            'the task row under Task.complete / Task.set_state (completed, non-skipped target state), against arbitrary '
+            'concurrent transactions on that row. They are still NOT exhibited for: Task.defer / Task.update / '
+            'skip, policies (DELAYED), WithItemsTask.on_action_complete (named lock), pause / resume scripts, transactions over several rows (stop recursion into sub-workflows, '
             'task and action rows), named locks, scheduler capture. Positions after the script\'s first successful write '
             'are the model\'s row-lock rule only (in-memory sqlite cannot make a second writer wait); the ORM dirty check '
             'and READ COMMITTED statement semantics are modelled and compared on sqlite, not on MySQL/PostgreSQL.',
@@ -49,18 +58,21 @@ RULE = ('stream lifecycle: EVERY state x EVERY operation (start/pause/resume/sto
         'on workflows; complete/update/defer/force-fail on tasks; result delivery on actions) on the real objects, '
         'exhaustive; stream engine: generated programs with operator commands injected at random points; '
         'non-trivial = an operation whose guard matters (all lifecycle cases) / a trace with an operator command; '
-        'stream race-wf: 6 scenarios (completion check with verdict success/error/cancel, stop_workflow '
-        'SUCCESS/ERROR/CANCELLED) x 5 interferers (stop CANCELLED/ERROR/SUCCESS, pause, second completion check) x every '
-        'pre-lock significant SQL statement of the script (exhaustive, 81 cases); non-trivial = the interferer changed the row; '
-        'stream race-action: 3 pairs of results for one action execution x the 2 pre-lock statements of on_action_complete')
+        'stream race-wf: 7 scenarios (completion check with verdict success/error/cancel, stop_workflow '
+        'SUCCESS/ERROR/CANCELLED, plain resume_workflow - monitor only) x 5 interferers (stop CANCELLED/ERROR/SUCCESS, pause, second completion check) x every '
+        'pre-lock significant SQL statement of the script (exhaustive, 86 cases); non-trivial = the interferer changed the row; '
+        'stream race-action: 3 pairs of results for one action execution x the pre-lock statements of on_action_complete; '
+        'stream race-task: 2 scenarios (action result vs complete_task(ERROR); the same child result twice) x the pre-lock '
+        'statements on the task row')
 TRUSTED = ['translate/states.py (AST read of states.py, fail closed)', 'harness seams replaced by recorders',
            'translate/race_scripts.py (AST, fail closed); harness/race_driver.py: SQL statement tap, thread-local swap for the '
            'second session; row-lock semantics (a second writer waits until commit) modelled, not executed on sqlite']
-LEAN_MODULES = ['Mistral.Props.C03', 'Mistral.Props.C03Race', 'Mistral.Props.C03RaceCac', 'Mistral.Props.C03RaceAction']
+LEAN_MODULES = ['Mistral.Props.C03', 'Mistral.Props.C03Race', 'Mistral.Props.C03RaceCac', 'Mistral.Props.C03RaceAction',
+                'Mistral.Props.C03RaceTask']
 RACE_CHUNKS = [{'family': 'wf', 'scenarios': ['cacSucceed', 'stopCancel']},
                {'family': 'wf', 'scenarios': ['cacFail', 'stopSuccess']},
-               {'family': 'wf', 'scenarios': ['cacCancel', 'stopError']},
-               {'family': 'action'}]
+               {'family': 'wf', 'scenarios': ['cacCancel', 'stopError', 'resume']},
+               {'family': 'action'}, {'family': 'task'}]
 
 
 def correspond(ctx):
@@ -100,8 +112,8 @@ def replay(ctx, rep):
         import json
         from harness import race_driver
         n0 = len(ctx.violations) + len(ctx.known_hit)
-        if r.get('family') == 'action':
-            race_driver.run_chunk(ctx, 'action')
+        if r.get('family') in ('action', 'task'):
+            race_driver.run_chunk(ctx, r['family'])
         else:
             race_driver.run_chunk(ctx, 'wf', [r['scenario']], [r['interferer']])
         print('replay: %s x %s at every gap -> %d hit(s); recorded: position %s (%s)' % (
